@@ -51,7 +51,7 @@ m("c20-canonical-loop", "C20", "Canonical never terminates for values with expon
 m("c20-dig-short", "C20", "digits.dig is too short for 35-digit coefficients (index out of range panic)",
   ("format.go", "\tdig  [39]byte", "\tdig  [34]byte"))
 
-m("c20-scan-recover", "C20", "Scan swallows panics raised by the fmt.ScanState (read errors vanish)",
+m("c20-scan-recover", "C05", "Scan swallows panics raised by the fmt.ScanState (read errors vanish)",
   ("scan.go", "func (d *Decimal) Scan(f fmt.ScanState, verb rune) error {\n", "func (d *Decimal) Scan(f fmt.ScanState, verb rune) (err error) {\n\tdefer func() {\n\t\tif r := recover(); r != nil {\n\t\t\terr = nil\n\t\t}\n\t}()\n\n"))
 
 m("c20-special-alias", "C20", "appendSpecial hands out the package-level text slice when no buffer is supplied",
